@@ -8,15 +8,22 @@
 //!   walk entries <index> <dataLen> <leaf table>                   => ok <n> <syls>/<phrase>… | panic | hang
 //!   walk lookup  <index> <dataLen> <leaf table> <s|f> <first> <q> => ok <n> <phrase>…        | panic | hang
 //!
-//! are the correspondence records for `Model/TrieWalk.lean` (only for files `Trie::new` accepts; the
-//! decoded index table and the phrases the real `PhrasesIter` decodes per leaf are exported in the
-//! record).  A second phase creates input contexts (`chewing_new2`) over corrupted files placed as
+//!   walk open b<file>                                            => ok b<index> <dataLen> | err
+//!   walk validate b<index> <dataLen>                             => ok | err
+//!
+//! are the correspondence records for `Model/TrieWalk.lean` (`walk entries` / `walk lookup` only for files
+//! `Trie::new` accepts; the decoded index table and the phrases the real `PhrasesIter` decodes per leaf are
+//! exported in the record).  `walk open` is recorded for EVERY case: the byte-level model of `Trie::new`
+//! (`TrieCodec.openTrie`: the DER shapes, then `validate_index`) has to predict acceptance and the decoded
+//! sections; `walk validate` for every case whose index / phrase bytes the harness knows by construction
+//! (`trie_doc`): `validate_index` alone.  A second phase creates input contexts (`chewing_new2`) over corrupted files placed as
 //! user dictionary, system dictionary and drop-in dictionary and types a few keys.
 //!
 //! ORACLE: any panic / abort / watchdog timeout / allocation failure, or a lookup / enumeration
-//! returning more phrases than the file holds -> `!oracle C12 <class> …`; class = `F16-non-tree-index`
-//! / `F17-zero-syllable-child` when the decoded index satisfies the finding's structural predicate
-//! *and* the failure is of the finding's kind, else `new`.
+//! returning more phrases than the file holds, or `Trie::new` ACCEPTING an index that is not a tree laid
+//! out parent-before-child / has a zero syllable inside a child range (the former findings F16 / F17,
+//! repaired by `validate_index`) -> `!oracle C12 new …` (no known classes are left on the trie side
+//! except F39, the empty-key entry of a valid file).
 #[path = "../c12_common.rs"]
 mod common;
 use chewing::dictionary::{Dictionary, DictionaryBuilder, DictionaryInfo, LookupStrategy, Phrase, Trie, TrieBuilder};
@@ -101,6 +108,12 @@ fn family(rng: &mut Rng, thorough: bool) -> Vec<(String, Vec<u8>)> {
 struct Case {
     what: String,
     bytes: Vec<u8>,
+    /// (index bytes, phrase bytes) when the file was assembled from them by `trie_doc`
+    parts: Option<(Vec<u8>, Vec<u8>)>,
+}
+
+fn doc_case(what: String, idx: &[u8], data: &[u8]) -> Case {
+    Case { what, bytes: trie_doc(idx, data), parts: Some((idx.to_vec(), data.to_vec())) }
 }
 
 /// offset and length of the index OCTET STRING contents in a file built by `TrieBuilder`
@@ -124,7 +137,7 @@ fn witnesses() -> Vec<Case> {
     let mut idx = vec![];
     idx.extend(rec8(1, 1, 0));
     idx.extend(rec8(1, 1, CE4));
-    v.push(Case { what: "witness-F16-self-loop".into(), bytes: trie_doc(&idx, &data) });
+    v.push(doc_case("witness-F16-self-loop".into(), &idx, &data));
     // F16 (thread blow-up, cyclic): N records, every one with child range [0, N); record 0 doubles as
     // the leaf of every node.  `lookup([s; k])` returns (N-1)^k copies of the single phrase.
     let n = 16u16;
@@ -135,7 +148,7 @@ fn witnesses() -> Vec<Case> {
     for _ in 1..n {
         idx.extend(rec8(0, n, CE4));
     }
-    v.push(Case { what: "witness-F16-blowup-cyclic".into(), bytes: trie_doc(&idx, &data) });
+    v.push(doc_case("witness-F16-blowup-cyclic".into(), &idx, &data));
     // F16 (thread blow-up, no cycle): 3 layers of 6 nodes, every node of a layer pointing at the
     // whole next layer; 6^3 threads / enumeration paths for one stored phrase.
     let (w, layers) = (6u32, 3u32);
@@ -151,7 +164,7 @@ fn witnesses() -> Vec<Case> {
         }
     }
     idx.extend(rec8(0, data.len() as u16, 0));
-    v.push(Case { what: "witness-F16-blowup-layered".into(), bytes: trie_doc(&idx, &data) });
+    v.push(doc_case("witness-F16-blowup-layered".into(), &idx, &data));
     // F17: zero syllable at a non-first child position — second child (descend path) …
     let d1 = phrase_rec("測".as_bytes(), 1);
     let mut idx = vec![];
@@ -160,19 +173,53 @@ fn witnesses() -> Vec<Case> {
     idx.extend(rec8(0, d1.len() as u16, 0)); // 2 leaf
     idx.extend(rec8(4, 1, 0)); // 3 zero-syllable "node" -> [4,5)
     idx.extend(rec8(0, d1.len() as u16, 0)); // 4 leaf
-    v.push(Case { what: "witness-F17-second-child".into(), bytes: trie_doc(&idx, &d1) });
+    v.push(doc_case("witness-F17-second-child".into(), &idx, &d1));
     // … and a later sibling (ascend path, `debug_assert_ne!`)
     let mut idx = vec![];
     idx.extend(rec8(1, 2, 0)); // 0 root -> [1,3)
     idx.extend(rec8(3, 1, CE4)); // 1 -> [3,4)
     idx.extend(rec8(3, 1, 0)); // 2 zero-syllable sibling
     idx.extend(rec8(0, d1.len() as u16, 0)); // 3 leaf
-    v.push(Case { what: "witness-F17-later-sibling".into(), bytes: trie_doc(&idx, &d1) });
+    v.push(doc_case("witness-F17-later-sibling".into(), &idx, &d1));
+    // one file per clause of `validate_index` that no other clause rejects
+    // (a) child range not after the node, on a record no node points at (the order clause holds: 2 >= next = 2)
+    let mut idx = vec![];
+    idx.extend(rec8(1, 1, 0)); // 0 root -> [1,2)
+    idx.extend(rec8(0, d1.len() as u16, 0)); // 1 leaf
+    idx.extend(rec8(2, 1, CE4)); // 2 -> [2,3): itself
+    v.push(doc_case("clause-child-range-not-after-node".into(), &idx, &d1));
+    // (b) child range beyond the index
+    let mut idx = vec![];
+    idx.extend(rec8(1, 2, 0)); // 0 root -> [1,3) of 2 records
+    idx.extend(rec8(0, d1.len() as u16, 0));
+    v.push(doc_case("clause-child-range-beyond-index".into(), &idx, &d1));
+    // (c) child ranges out of order (the second node points in front of the first node's children)
+    let mut idx = vec![];
+    idx.extend(rec8(1, 2, 0)); // 0 root -> [1,3)
+    idx.extend(rec8(4, 1, CE4)); // 1 -> [4,5)
+    idx.extend(rec8(3, 1, SHI4)); // 2 -> [3,4)
+    idx.extend(rec8(0, d1.len() as u16, 0));
+    idx.extend(rec8(0, d1.len() as u16, 0));
+    v.push(doc_case("clause-child-ranges-out-of-order".into(), &idx, &d1));
+    // (d) leaf data beyond the phrase bytes
+    let mut idx = vec![];
+    idx.extend(rec8(1, 1, 0));
+    idx.extend(rec8(1, d1.len() as u16, 0));
+    v.push(doc_case("clause-leaf-data-beyond-phrases".into(), &idx, &d1));
+    // (e) accepted: gaps between child ranges, an unused record, an empty child range
+    let mut idx = vec![];
+    idx.extend(rec8(2, 1, 0)); // 0 root -> [2,3)
+    idx.extend(rec8(0, 0, 0)); // 1 unused leaf-shaped record
+    idx.extend(rec8(4, 1, CE4)); // 2 -> [4,5)
+    idx.extend(rec8(5, 0, SHI4)); // 3 unused node with an empty range
+    idx.extend(rec8(0, d1.len() as u16, 0)); // 4 leaf
+    v.push(doc_case("clause-gaps-accepted".into(), &idx, &d1));
     // F39 (dictionary-file form): a *valid* file, written by `TrieBuilder`, with an entry under the
     // empty key; the traversals are fine, every conversion of a context over it aborts
     v.push(Case {
         what: "witness-F39-empty-key-entry".into(),
         bytes: build(&[(&[], "空", 1, None), (&[CE4], "測", 1, None), (&[SHI4], "試", 3, None)], false),
+        parts: None,
     });
     // F40 (repaired by a `fix:` commit: `saturating_add` in `estimate`): a valid file storing a frequency next to
     // u32::MAX; the context is created and committing the phrase (learning) must clamp to MAX_USER_FREQ.  Before
@@ -181,6 +228,7 @@ fn witnesses() -> Vec<Case> {
     v.push(Case {
         what: "witness-F40-max-frequency".into(),
         bytes: build(&[(&[CE4], "測", u32::MAX, None), (&[SHI4], "試", 3, None)], false),
+        parts: None,
     });
     v
 }
@@ -190,7 +238,7 @@ fn cases(seed: u64, thorough: bool) -> Vec<Case> {
     let mut v = witnesses();
     let fam = family(&mut rng, thorough);
     for (name, f) in &fam {
-        v.push(Case { what: format!("{}-valid", name), bytes: f.clone() });
+        v.push(Case { what: format!("{}-valid", name), bytes: f.clone(), parts: None });
         let (ipos, ilen) = index_span(f);
         for pos in 0..f.len() {
             let in_index = pos >= ipos && pos < ipos + ilen;
@@ -209,12 +257,12 @@ fn cases(seed: u64, thorough: bool) -> Vec<Case> {
                 if x != o {
                     let mut g = f.clone();
                     g[pos] = x;
-                    v.push(Case { what: format!("{}-overwrite@{}={}{}", name, pos, x, if in_index { "-index" } else { "" }), bytes: g });
+                    v.push(Case { what: format!("{}-overwrite@{}={}{}", name, pos, x, if in_index { "-index" } else { "" }), bytes: g, parts: None });
                 }
             }
         }
         for cut in 0..f.len() {
-            v.push(Case { what: format!("{}-truncated@{}", name, cut), bytes: f[..cut].to_vec() });
+            v.push(Case { what: format!("{}-truncated@{}", name, cut), bytes: f[..cut].to_vec(), parts: None });
         }
         for _ in 0..(if thorough { 60 } else { 12 }) {
             let mut g = f.clone();
@@ -222,7 +270,7 @@ fn cases(seed: u64, thorough: bool) -> Vec<Case> {
             for _ in 0..extra {
                 g.push(rng.below(256) as u8);
             }
-            v.push(Case { what: format!("{}-extended+{}", name, extra), bytes: g });
+            v.push(Case { what: format!("{}-extended+{}", name, extra), bytes: g, parts: None });
         }
         // structured: rewrite one index record field with an interesting value
         let (idx, data) = trie_parts(&Trie::new(&f[..]).unwrap()).unwrap();
@@ -237,7 +285,7 @@ fn cases(seed: u64, thorough: bool) -> Vec<Case> {
                         _ => i2[r * 8 + 6..r * 8 + 8].copy_from_slice(&(val as u16).to_be_bytes()),
                     }
                     if i2 != idx {
-                        v.push(Case { what: format!("{}-record{}-field{}={}", name, r, field, val), bytes: trie_doc(&i2, &data) });
+                        v.push(doc_case(format!("{}-record{}-field{}={}", name, r, field, val), &i2, &data));
                     }
                 }
             }
@@ -246,12 +294,12 @@ fn cases(seed: u64, thorough: bool) -> Vec<Case> {
         for extra in [1usize, 7] {
             let mut i2 = idx.clone();
             i2.extend(std::iter::repeat(0xAB).take(extra));
-            v.push(Case { what: format!("{}-index+{}bytes", name, extra), bytes: trie_doc(&i2, &data) });
+            v.push(doc_case(format!("{}-index+{}bytes", name, extra), &i2, &data));
         }
-        v.push(Case { what: format!("{}-index-cut", name), bytes: trie_doc(&idx[..idx.len() - 3], &data) });
-        v.push(Case { what: format!("{}-index-7bytes", name), bytes: trie_doc(&idx[..7], &data) });
-        v.push(Case { what: format!("{}-index-empty", name), bytes: trie_doc(&[], &data) });
-        v.push(Case { what: format!("{}-data-empty", name), bytes: trie_doc(&idx, &[]) });
+        v.push(doc_case(format!("{}-index-cut", name), &idx[..idx.len() - 3], &data));
+        v.push(doc_case(format!("{}-index-7bytes", name), &idx[..7], &data));
+        v.push(doc_case(format!("{}-index-empty", name), &[], &data));
+        v.push(doc_case(format!("{}-data-empty", name), &idx, &[]));
         // random index tables over the same data
         for _ in 0..(if thorough { 400 } else { 60 }) {
             let n = 1 + rng.below(10) as usize;
@@ -263,7 +311,7 @@ fn cases(seed: u64, thorough: bool) -> Vec<Case> {
                 let s = if r == 0 || leafish { 0 } else { *rng.pick(&[CE4, SHI4, CE4, 0]) };
                 i2.extend(rec8(a, b, s));
             }
-            v.push(Case { what: format!("{}-random-index", name), bytes: trie_doc(&i2, &data) });
+            v.push(doc_case(format!("{}-random-index", name), &i2, &data));
         }
     }
     // arbitrary bytes, and arbitrary bytes behind a valid prefix
@@ -277,7 +325,7 @@ fn cases(seed: u64, thorough: bool) -> Vec<Case> {
             h.append(&mut b);
             b = h;
         }
-        v.push(Case { what: "arbitrary-bytes".into(), bytes: b });
+        v.push(Case { what: "arbitrary-bytes".into(), bytes: b, parts: None });
     }
     v
 }
@@ -315,13 +363,9 @@ fn panic_msg(e: Box<dyn std::any::Any + Send>) -> String {
     e.downcast_ref::<String>().cloned().or(e.downcast_ref::<&str>().map(|s| s.to_string())).unwrap_or_default()
 }
 
-fn classify_panic(recs: &[IRec], msg: &str) -> &'static str {
-    let f17_kind = msg.contains("DecodeSyllableError") || msg.contains("left != right");
-    if f17_kind && zero_syllable_child(recs) {
-        "F17-zero-syllable-child"
-    } else {
-        "new"
-    }
+/// no known panic classes are left on the trie side (F17 was repaired by `validate_index`)
+fn classify_panic(_recs: &[IRec], _msg: &str) -> &'static str {
+    "new"
 }
 
 fn worker(seed: u64, thorough: bool, lo: usize, hi: usize, start_case: usize, start_op: usize) {
@@ -338,10 +382,17 @@ fn worker(seed: u64, thorough: bool, lo: usize, hi: usize, start_case: usize, st
         let c = &cs[ci];
         let first_op = if ci == start_case { start_op } else { 0 };
         say(format!("@begin {}.0 open {} b{}", ci, c.what, hex(&c.bytes)));
-        let t = match catch_unwind(AssertUnwindSafe(|| Trie::new(&c.bytes[..]))) {
+        let opened = catch_unwind(AssertUnwindSafe(|| Trie::new(&c.bytes[..])));
+        if first_op == 0 {
+            if let (Some((idx, data)), Ok(r)) = (&c.parts, &opened) {
+                say(format!("walk validate b{} {} => {}", hex(idx), data.len(), if r.is_ok() { "ok" } else { "err" }));
+            }
+        }
+        let t = match opened {
             Ok(Ok(t)) => t,
             Ok(Err(_)) => {
                 if first_op == 0 {
+                    say(format!("walk open b{} => err", hex(&c.bytes)));
                     say(format!("#open {} err", ci));
                 }
                 continue;
@@ -361,7 +412,13 @@ fn worker(seed: u64, thorough: bool, lo: usize, hi: usize, start_case: usize, st
         let recs = parse_index(&idx);
         let (tab, total_phrases) = leaf_table(&recs, &data);
         if first_op == 0 {
+            say(format!("walk open b{} => ok b{} {}", hex(&c.bytes), hex(&idx), data.len()));
             say(format!("#open {} ok records={} non_tree={} zero_child={}", ci, recs.len(), non_tree_index(&recs) as u8, zero_syllable_child(&recs) as u8));
+            // the former findings F16 / F17: `validate_index` has to reject such an index
+            if non_tree_index(&recs) || zero_syllable_child(&recs) {
+                say(format!("!oracle C12 new Trie::new-accepts-an-index-that-is-not-a-breadth-first-tree non_tree={} zero_child={} {} file=b{}",
+                    non_tree_index(&recs) as u8, zero_syllable_child(&recs) as u8, c.what, hex(&c.bytes)));
+            }
         }
         let pre = format!("b{} {} {}", hex(&idx), data.len(), tab);
         let qs = queries(&recs);
@@ -382,7 +439,7 @@ fn worker(seed: u64, thorough: bool, lo: usize, hi: usize, start_case: usize, st
                 Ok(ps) => {
                     say(format!("{} => ok {}{}", lhs, ps.len(), ps.iter().map(|p| format!(" {}", phrase_tok(p))).collect::<String>()));
                     if ps.len() > total_phrases {
-                        let class = if non_tree_index(&recs) { "F16-non-tree-index" } else { "new" };
+                        let class = "new";
                         say(format!("!oracle C12 {} lookup-returns-{}-phrases-from-a-file-holding-{} {} query={} file=b{}", class, ps.len(), total_phrases, c.what, syls_tok(q), hex(&c.bytes)));
                     }
                 }
@@ -407,7 +464,7 @@ fn worker(seed: u64, thorough: bool, lo: usize, hi: usize, start_case: usize, st
                         es.iter().map(|e| format!(" {}/{}", syls_tok(&e.0.iter().map(|s| s.to_u16()).collect::<Vec<_>>()), phrase_tok(&e.1))).collect::<String>()
                     ));
                     if es.len() > total_phrases {
-                        let class = if non_tree_index(&recs) { "F16-non-tree-index" } else { "new" };
+                        let class = "new";
                         say(format!("!oracle C12 {} entries-yields-{}-phrases-from-a-file-holding-{} {} file=b{}", class, es.len(), total_phrases, c.what, hex(&c.bytes)));
                     }
                 }
@@ -519,11 +576,6 @@ fn ctx_worker(seed: u64, thorough: bool, lo: usize, hi: usize) {
 }
 
 // ------------------------------------------------------------------ parent
-fn index_of_lhs(text: &str) -> Vec<IRec> {
-    // "walk <fn> b<index> …"
-    text.split(' ').nth(2).map(|t| parse_index(&unhex(t))).unwrap_or_default()
-}
-
 fn main() {
     let args: Vec<String> = std::env::args().collect();
     let seed = seed_from_env();
@@ -568,11 +620,9 @@ fn main() {
                                 let (c, o): (usize, usize) = (c.parse().unwrap(), o.parse().unwrap());
                                 let oom = stderr.contains("memory allocation of");
                                 if text.starts_with("walk ") {
-                                    let recs = index_of_lhs(&text);
                                     let kind = if timeout { "watchdog-timeout" } else if oom { "allocation-failure" } else { "abort" };
                                     lines.push(format!("{} => {}", text, if timeout || oom { "hang" } else { "abort" }));
-                                    let class = if (timeout || oom) && non_tree_index(&recs) { "F16-non-tree-index" } else { "new" };
-                                    lines.push(format!("!oracle C12 {} {}-in-{} case={} {}", class, kind,
+                                    lines.push(format!("!oracle C12 new {}-in-{} case={} {}", kind,
                                         text.split(' ').take(2).collect::<Vec<_>>().join("-"), c, text.chars().take(700).collect::<String>().replace(' ', "_")));
                                 } else {
                                     lines.push(format!("#open {} {}", c, if timeout { "hang" } else { "abort" }));
@@ -599,7 +649,7 @@ fn main() {
                 let mut it = rest.split(' ');
                 it.next();
                 let res = it.next().unwrap_or("?");
-                *st.entry(format!("open_{}", res)).or_default() += 1;
+                *st.entry(format!("files_open_{}", res)).or_default() += 1;
                 for kv in it {
                     if kv == "non_tree=1" {
                         *st.entry("opened_non_tree".into()).or_default() += 1;
@@ -652,13 +702,8 @@ fn main() {
                                 let parts = catch_unwind(AssertUnwindSafe(|| Trie::new(&c.bytes[..]).ok().and_then(|t| trie_parts(&t)))).ok().flatten();
                                 let recs = parts.as_ref().map(|p| parse_index(&p.0)).unwrap_or_default();
                                 let oom = stderr.contains("memory allocation of");
-                                let f17 = stderr.contains("DecodeSyllableError") || stderr.contains("left != right");
                                 let sub = stderr.contains("subtract with overflow");
-                                let class = if (timeout || oom) && non_tree_index(&recs) {
-                                    "F16-non-tree-index"
-                                } else if !timeout && f17 && zero_syllable_child(&recs) {
-                                    "F17-zero-syllable-child"
-                                } else if !timeout && sub && empty_key_entry(&recs) {
+                                let class = if !timeout && sub && empty_key_entry(&recs) {
                                     "F39-empty-key-entry"
                                 } else {
                                     "new"
